@@ -16,3 +16,9 @@ open Neutrino.Net
 #print axioms step_good
 #print axioms step_rank
 #print axioms stallSched_spec
+#print axioms Neutrino.Ask.C04_ask_source
+#print axioms Neutrino.Ask.C04_sync_peer_ahead_is_asked
+#print axioms Neutrino.Ask.C04_ahead_peer_asked_counterexample
+#print axioms Neutrino.Ask.C04_ahead_peer_asked
+#print axioms Neutrino.Ask.C04_ahead_peer_asked_inv
+#print axioms Neutrino.Ask.C04_done_asks_replacement
